@@ -407,7 +407,7 @@ fn main() {
     let recorded = recorded_traffic();
     headers(&mut ctx);
     ctx.arm("values", 1800.0);
-    let n = ctx.volume(8_000, 250_000, 30, 2_000);
+    let n = ctx.volume(30_000, 400_000, 30, 2_000);
     ctx.run_cases("v6", n, |ctx, _i, rng| roundtrip6(ctx, rng, &recorded));
     ctx.run_cases("v7", n, |ctx, _i, rng| roundtrip7(ctx, rng, &recorded));
     ctx.run_cases("chunks6", n / 4, |ctx, _i, rng| chunk_level(ctx, rng, false));
